@@ -174,6 +174,84 @@ theorem strchr_eq (ct : CT) (b : Buf) (p : Nat) (ch : Int) (h : Spec.Terminated 
   have hc : ct.cast ch = Spec.toUnit ct.bits ch := rfl
   rw [hc, strchrLoop_spec b _ (b.drop p) p (b.length + 1) rfl h (drop_length_lt b p)]
 
+/-! ## strrchr, spans, strpbrk, strstr -/
+
+theorem strrchr_eq (ct : CT) (b : Buf) (p : Nat) (ch : Int) (h : Spec.Terminated b p) :
+    strrchr ct b p ch = .ok ((Spec.strrchr b p (Spec.toUnit ct.bits ch)).map (p + ·)) := by
+  unfold strrchr
+  have hc : ct.cast ch = Spec.toUnit ct.bits ch := rfl
+  rw [strlen_eq b p h, hc]
+  generalize Spec.toUnit ct.bits ch = c
+  simp only [ok_bind, Spec.strrchr, Spec.lastIdx, Spec.strlen, List.length_append, List.length_singleton,
+    List.range_succ, List.reverse_append, List.reverse_cons, List.reverse_nil, List.nil_append, List.singleton_append,
+    List.find?_cons]
+  have hend : (Spec.cstr b p ++ [0])[(Spec.cstr b p).length]? = some 0 := by simp
+  rw [hend]
+  by_cases hc0 : c = 0
+  · simp [hc0]
+  · have : (some 0 == some c) = false := by simpa using fun e : 0 = c => hc0 e.symm
+    rw [if_neg hc0, this, strrchrLoop_spec b p c _ (Nat.le_refl _)]
+    congr 2
+    apply find?_congr'
+    intro i hi
+    have : i < (Spec.cstr b p).length := by simpa using hi
+    rw [List.getElem?_append_left this]
+
+
+theorem strspn_eq (b : Buf) (p : Nat) (t : Buf) (q : Nat) (hb : Spec.Terminated b p) (ht : Spec.Terminated t q) :
+    strspn true b p t q = .ok (Spec.strspn b p t q) := by
+  unfold strspn
+  rw [strlen_eq b p hb, strlen_eq t q ht]
+  simp only [ok_bind]
+  rw [strspnLoop_spec true b p t q _ (strlen_le_drop t q) (Spec.strlen b p) (b.drop p) 0 rfl (strlen_le_drop b p),
+    take_strlen_eq_cstr, take_strlen_eq_cstr]
+  simp [Spec.strspn]
+
+theorem strcspn_eq (b : Buf) (p : Nat) (t : Buf) (q : Nat) (hb : Spec.Terminated b p) (ht : Spec.Terminated t q) :
+    strspn false b p t q = .ok (Spec.strcspn b p t q) := by
+  unfold strspn
+  rw [strlen_eq b p hb, strlen_eq t q ht]
+  simp only [ok_bind]
+  rw [strspnLoop_spec false b p t q _ (strlen_le_drop t q) (Spec.strlen b p) (b.drop p) 0 rfl (strlen_le_drop b p),
+    take_strlen_eq_cstr, take_strlen_eq_cstr]
+  simp [Spec.strcspn]
+
+theorem strpbrk_eq (b : Buf) (p : Nat) (t : Buf) (q : Nat) (hb : Spec.Terminated b p) (ht : Spec.Terminated t q) :
+    strpbrk b p t q = .ok ((Spec.strpbrk b p t q).map (p + ·)) := by
+  unfold strpbrk
+  rw [strcspn_eq b p t q hb ht]
+  simp only [ok_bind, Spec.strpbrk, Spec.strcspn, findIdx?_eq_takeWhile]
+  generalize hk : ((Spec.cstr b p).takeWhile (fun x => !(Spec.cstr t q).contains x)).length = k
+  have hkle : k ≤ (Spec.cstr b p).length := by rw [← hk]; exact length_takeWhile_le _ _
+  rw [rd_add_eq]
+  by_cases hlt : k < (Spec.cstr b p).length
+  · obtain ⟨x, h1, h2, _⟩ := rd_takeWhile_lt (b.drop p) k hlt
+    rw [h1]
+    simp [h2, hlt]
+  · have hke : k = (Spec.cstr b p).length := by omega
+    rw [hke]
+    have := rd_takeWhile_end (b.drop p) hb
+    unfold Spec.cstr
+    rw [this]
+    simp
+
+
+theorem strstr_eq (h : Buf) (p : Nat) (n : Buf) (q : Nat) (hh : Spec.Terminated h p) (hn : Spec.Terminated n q) :
+    strstr h p n q = .ok ((Spec.strstr h p n q).map (p + ·)) := by
+  unfold strstr Spec.strstr
+  obtain ⟨y, nl, hnl⟩ : ∃ y nl, n.drop q = y :: nl := by
+    cases e : n.drop q with
+    | nil => unfold Spec.Terminated at hn; rw [e] at hn; simp at hn
+    | cons y nl => exact ⟨y, nl, rfl⟩
+  simp only [rd_of_drop_cons hnl, ok_bind]
+  by_cases hy : y = 0
+  · simp [hy, Spec.cstr, hnl, List.range_succ_eq_map]
+  · rw [if_neg hy]
+    have hne : (n.drop q).takeWhile (· ≠ 0) ≠ [] := by rw [hnl]; simp [hy]
+    rw [strstrOuter_spec h n q hn hne (h.drop p) p (h.length + 1) rfl hh (drop_length_lt h p)]
+    rfl
+
+
 /-! ## non-vacuity: the hypotheses hold on ordinary inputs (tests on samples, not proofs of anything general) -/
 
 example : Spec.Terminated [97, 98, 0, 5] 1 := by decide
@@ -186,5 +264,9 @@ example : strcmp CT.char [0] 0 [200, 0] 0 = .ok (-1) :=
   strcmp_eq CT.char (by decide) [0] 0 [200, 0] 0 (by decide) (by decide) (by decide) (by decide)
 example : memmove [1, 2, 3, 4, 5] 1 0 3 = .ok (1, [1, 1, 2, 3, 5]) := memmove_eq [1, 2, 3, 4, 5] 1 0 3 (by decide) (by decide)
 example : (0 + 5 ≤ [97, 98].length ∨ Spec.toUnit 8 98 ∈ [97, 98].drop 0) := by decide
+example : strstr [97, 98, 97, 0] 0 [98, 97, 0] 0 = .ok (some 1) :=
+  strstr_eq [97, 98, 97, 0] 0 [98, 97, 0] 0 (by decide) (by decide)
+example : strpbrk [97, 98, 0] 0 [99, 0] 0 = .ok none := strpbrk_eq [97, 98, 0] 0 [99, 0] 0 (by decide) (by decide)
+example : strrchr CT.char [98, 97, 98, 97, 0] 1 97 = .ok (some 3) := strrchr_eq CT.char [98, 97, 98, 97, 0] 1 97 (by decide)
 
 end Tetl.C18.Props
